@@ -14,7 +14,7 @@ func c18Profile() *profile {
 	return &profile{
 		name:    "C18",
 		clients: [2]int{1, 3},
-		steps:   [2]int{20, 110},
+		steps:   [2]int{3, 80},
 		ops: weighted(map[string]int{
 			"bootstrap": 1,
 			"reregister": 2,
@@ -66,7 +66,7 @@ func c19Profile() *profile {
 	return &profile{
 		name:    "C19",
 		clients: [2]int{1, 2},
-		steps:   [2]int{20, 90},
+		steps:   [2]int{3, 80},
 		ops: weighted(map[string]int{
 			"bootstrap": 1,
 			"reregister": 1,
@@ -112,7 +112,7 @@ func c20Profile() *profile {
 	return &profile{
 		name:    "C20",
 		clients: [2]int{1, 2},
-		steps:   [2]int{25, 110},
+		steps:   [2]int{3, 80},
 		ops: weighted(map[string]int{
 			"bootstrap": 1,
 			"reregister": 1,
@@ -132,7 +132,6 @@ func c20Profile() *profile {
 			"advance_small": 3,
 			"release": 2,
 			"replay": 1,
-			"shutdown": 1,
 		}),
 		oracle:   map[string]bool{"acct": true},
 		parkPct:  15,
